@@ -97,6 +97,10 @@ pub fn hard_exit(code: i32) -> ! {
 
 pub fn init_process() {
     sched::install_hooks();
+    *sched::KNOWN.lock().unwrap() = load_known()
+        .into_iter()
+        .map(|k| (k.sig_prefix, format!("property={} {}", k.property, k.what)))
+        .collect();
     *sched::FATAL.lock().unwrap() = Some(fatal_handler);
     std::panic::set_hook(Box::new(|info| {
         let loc = info
@@ -347,6 +351,9 @@ pub fn worker_main(def: &PropDef, tier: Tier, base: u64, lo: u64, hi: u64, out: 
         }
         for (k, v) in &r.stats.probes {
             *probes.entry(k.to_string()).or_insert(0) += v;
+        }
+        for (k, v) in &r.stats.known_hits {
+            *probes.entry(format!("KNOWN-FINDING: {k}")).or_insert(0) += v;
         }
         let mut wh = FNV0;
         for x in &r.stats.w {
@@ -737,6 +744,11 @@ pub fn check_main(def: &PropDef, o: &CheckOpts) -> i32 {
             )),
         );
         agg_runs += 1;
+    }
+    let kf: Vec<String> = probes.keys().filter(|k| k.starts_with("KNOWN-FINDING: ")).cloned().collect();
+    for k in kf {
+        let n = probes.remove(&k).unwrap_or(0);
+        *known_hits.entry(k.trim_start_matches("KNOWN-FINDING: ").to_string()).or_insert(0) += n;
     }
     let mut exit = 0;
     let mut viol_count = 0u64;
